@@ -120,6 +120,11 @@ fn main() {
                 emit(&mut out, util::guarded(|| taskfam::gen_read(seed, id)));
             }
         }
+        "cloud-reader" => {
+            for id in first..first + count {
+                emit(&mut out, util::guarded(|| cloudfam::gen_reader(seed, id)));
+            }
+        }
         "cloud-race" | "cloud-cleanup" | "cloud-fault" => {
             let mode = fam[6..].to_string();
             for id in first..first + count {
